@@ -1,5 +1,5 @@
 (** C07 — Undo restores the exact prior state and withdraws the changes from sync. *)
-From TC Require Import Model.TaskDb Proofs.ApplyP Proofs.UndoP.
+From TC Require Import Model.TaskDb Proofs.ApplyP Proofs.UndoP Proofs.UndoFetchP.
 
 (** Reversing one faithful operation (valid where it was applied, recording the
     value / the task that was really there) restores the tasks exactly --
@@ -40,8 +40,42 @@ Proof. exact undo_after_sync_refused. Qed.
 Theorem C07_sync_complete_leaves_nothing_unsynced : forall s, unsynced (sync_complete s) = [].
 Proof. exact unsynced_sync_complete. Qed.
 
+(** What [get_undo_operations] offers is what [commit_reversed_operations]
+    accepts: a tail of the unsynchronised operations, non-empty whenever
+    anything is unsynchronised, reaching back exactly to the last undo point. *)
+Theorem C07_get_undo_is_tail : forall s, exists p, unsynced s = p ++ get_undo_operations s.
+Proof. exact get_undo_is_tail. Qed.
+
+Theorem C07_get_undo_nonempty : forall s, unsynced s <> [] -> get_undo_operations s <> [].
+Proof. exact get_undo_nonempty. Qed.
+
+Theorem C07_get_undo_back_to_last_point : forall s,
+  match get_undo_operations s with [] => True | _ :: r => existsb is_undo_point r = false end.
+Proof. exact get_undo_back_to_last_point. Qed.
+
+(** Fetch, then commit the reversal, on a faithful log: success, the earlier
+    content is back, exactly the offered operations leave the log, and strictly
+    fewer operations remain unsynchronised -- repeated undo reaches the last sync. *)
+Theorem C07_fetch_then_undo : forall (s : store) (d : db) (pre : list (bool * op)) (p : list op),
+  unsynced s <> [] ->
+  unsynced s = p ++ get_undo_operations s ->
+  st_ops s = pre ++ map (pair false) (unsynced s) ->
+  faithful_seq d (get_undo_operations s) ->
+  st_tasks s = fold_left apply_local (get_undo_operations s) d ->
+  exists s', commit_reversed_operations s (get_undo_operations s)
+               = UndoDone (has_change (get_undo_operations s)) s'
+    /\ st_tasks s' = d
+    /\ st_ops s' = pre ++ map (pair false) p
+    /\ st_base s' = st_base s /\ st_ws s' = st_ws s
+    /\ (length p < length (unsynced s))%nat.
+Proof. exact fetch_then_undo. Qed.
+
 Print Assumptions C07_reverse_restores.
 Print Assumptions C07_undo_spec.
 Print Assumptions C07_undo_mismatch_refused.
 Print Assumptions C07_undo_after_sync_refused.
 Print Assumptions C07_sync_complete_leaves_nothing_unsynced.
+Print Assumptions C07_get_undo_is_tail.
+Print Assumptions C07_get_undo_nonempty.
+Print Assumptions C07_get_undo_back_to_last_point.
+Print Assumptions C07_fetch_then_undo.
